@@ -428,6 +428,30 @@ def stage_oracle(ctx: Ctx, progs):
             root = out
 
 
+def stage_prims(ctx: Ctx):
+    """equal-but-different primitives (1/True/1.0, 0/False/0.0, ''/b'') and other single primitive changes, deterministically"""
+    import fst
+    pairs = [(1, True), (True, 1), (0, False), (False, 0), (1, 1.0), (1.0, 1), (0, 0.0), (1, 1j), (2, 2.0), ('', b''), ('a', 'b'), (None, False), (1, None), (3, 4)]
+    for a, b in pairs:
+        for tmpl in ('x = {}\n', 'f({}, k={})\n', 'def g(p={}):\n    return [{}, y]\n'):
+            src = tmpl.format(*([repr(a)] * tmpl.count('{}')))
+            root = fst.FST(src, 'exec')
+            root.mark()
+            cs = [n for n in ast.walk(root.a) if isinstance(n, ast.Constant)]
+            cs[-1].value = b
+            cs[-1].kind = None
+            edited = strip_f(root.a)
+            ctx.tick(('prim', src, repr(b)), 'reconcile:prim-pair')
+            try:
+                out = root.reconcile()
+            except Exception as e:
+                ctx.violation(f'reconcile-raise|{type(e).__name__}|prim', 'reconcile() raised on a primitive change', {'src': src, 'new': repr(b), 'error': repr(e)[:200]})
+                continue
+            d = cmp_ast(out.a, edited, positions=False) or reparse_diffs(out)
+            if d:
+                ctx.violation(f'reconcile-struct|prim|{type(a).__name__}->{type(b).__name__}', 'the reconciled tree does not have the edited primitive', {'src': src, 'old': repr(a), 'new': repr(b), 'out_src': out.src, 'diffs': d})
+
+
 # ---- correspondence: number of puts of the real reconciler vs models/Reconcile.v ----------------------------------------
 SKIP_FIELDS = ('ctx', 'str', 'lineno', 'col_offset', 'end_lineno', 'end_col_offset', 'kind', 'type_comment')
 
@@ -577,6 +601,7 @@ def run(ctx: Ctx):
         ctx.build_props()
     progs = corpus(ctx.rng, gen=ctx.scale(20, 150))
     run_guarded(ctx, stage_oracle, progs)
+    run_guarded(ctx, stage_prims)
     run_guarded(ctx, stage_corr, progs)
 
 
